@@ -32,7 +32,7 @@ RULE = ("case = (mesh state, element). non-trivial = distinct case in which at l
 ASSUMPTIONS = ["manifold meshes; ElementGlobal elements whose DOF locations cannot be computed are judged on numbering only",
                "prisms: facet bases unsupported by the library (no boundary reference cell) - counted, not judged"]
 BOUNDS = {'quick': {'raw_depth_numbering': '2 if cells<=2, 1 if cells<=8, else 0', 'basis_and_matrix_checks': 'roots + depth 1 on cells<=4'},
-          'thorough': {'raw_depth_numbering': '2 if cells<=4, 1 if cells<=32, else 0', 'basis_and_matrix_checks': 'all states depth<=1'}}
+          'thorough': {'raw_depth_numbering': '2 if cells<=4 and vertices<=9, 1 if cells<=32, else 0', 'basis_and_matrix_checks': 'all states depth<=1'}}
 ITEM_TIMEOUT = {'quick': 900, 'thorough': 7200}
 
 
@@ -55,7 +55,7 @@ def budget(st, tier):
     n = st.nt
     if tier == 'quick':
         return 2 if n <= 2 else 1 if n <= 8 else 0
-    return 2 if n <= 4 else 1 if n <= 32 else 0
+    return 2 if (n <= 4 and st.nv <= 9) else 1 if n <= 32 else 0
 
 
 _ENTRIES = {}
